@@ -71,6 +71,9 @@ type protoOutcome struct {
 	afterErr []byte
 	eof      bool
 	fired    bool
+	// enc: the API call during which the failure happened returned nil (the tasks of a batch are joined before the call returns,
+	// so a failure that has fired when Write returns belongs to that Write)
+	notEnclosing string
 }
 
 // runner executes f under the chosen scheduler
@@ -156,11 +159,21 @@ func execOnce(sc *protoScenario, data, stream []byte, rn runner, firedFn func() 
 		}
 		o.events = rn.Run(func() {
 			o.panicked = catch(func() {
-				if _, e := w.Write(data); e != nil && o.apiErr == nil {
+				firedNow := func() bool { return sink.injected || (firedFn != nil && firedFn()) }
+				_, e := w.Write(data)
+				if e != nil && o.apiErr == nil {
 					o.apiErr = e
 				}
-				if e := w.Close(); e != nil && o.apiErr == nil {
+				duringWrite := firedNow()
+				if duringWrite && e == nil {
+					o.notEnclosing = "Write"
+				}
+				e = w.Close()
+				if e != nil && o.apiErr == nil {
 					o.apiErr = e
+				}
+				if !duringWrite && firedNow() && e == nil {
+					o.notEnclosing = "Close"
 				}
 			})
 		})
@@ -256,6 +269,9 @@ func judge(sc *protoScenario, data []byte, baseline []byte, o *protoOutcome, str
 	failureExpected := o.fired || (sc.Side == "dec" && sc.Damage > 0 && (sc.From == 0 || sc.Damage >= sc.From) && (sc.To == 0 || sc.Damage < sc.To))
 	if failureExpected && o.apiErr == nil && !o.stuck {
 		add("task-failure-not-reported", "a task failed (%s) but every API call returned nil/EOF", describeFailure(sc))
+	}
+	if o.notEnclosing != "" && !o.stuck && o.panicked == nil {
+		add("task-failure-not-reported-by-enclosing-call", "a task failed (%s) while %s was running its batch, but %s returned nil (first error seen later: %v)", describeFailure(sc), o.notEnclosing, o.notEnclosing, o.apiErr)
 	}
 	if sc.Side == "enc" {
 		if !failureExpected && !o.stuck && o.panicked == nil {
